@@ -34,13 +34,14 @@ COQ_CORR = 'corr_C20'
 N_QUICK = 1400
 N_THOROUGH = 9000
 VM_CASES = 30
+THOROUGH_EXHAUSTIVE = True      # thorough(): every vocabulary item x every request position x every kind/trigger
 RULE = ('cases = corpus + random requests (PATH_INFO, QUERY_STRING, Host, X-Forwarded-Host/-Proto, SCRIPT_NAME built '
         'from a vocabulary of markup, quotes, braces, str.format syntax, entity look-alikes, control and non-ASCII '
         'characters) x error kind (404, 405, 400 undecodable path, the three errors_map entries, 500 handler crash, '
         '500 failing iterator, 500 unsupported type, 500 too many iterations, last-resort page by five triggers) x '
         'Accept (HTML / JSON variants) x debug, each through Ombott.__call__ on a fresh application; plus a '
         'primitive stream (html.escape, html_escape, repr, json.dumps on random Unicode incl. surrogates and astral '
-        'characters; the JSON reader of the spec against json.loads on valid and mutated texts). non-trivial = an '
+        'characters; the JSON reader of the spec against json.loads on valid and mutated texts); the thorough tier adds every single vocabulary item in every request position (path tail, query string, Host) x every kind x HTML/JSON and in every last-resort trigger (exhaustive over the vocabulary). non-trivial = an '
         'error response whose request-controlled parts contain at least one of < > & " \' { } \\ or a control / '
         'non-ASCII character, or a primitive case with such a character; distinct by (kind, format, debug, request parts)')
 TRUSTED = [
